@@ -347,6 +347,11 @@ def _trav(prop, tier, seed, wd, replay, rule):
     if tier == "thorough":
         name, consts = cfgs[0]
         run_config(run, prop, name + "+cache", consts, wd, spec, caching=True)
+    else:
+        # with the neighbour memo on: every state's traversals run one after the other on warm entries, so an order
+        # that depends on whether an answer came from the memo (three links at one vertex: [b, c, b]) shows
+        (name, consts), sp, _, _ = extra[1]
+        run_config(run, prop, name + "+cache", consts, wd, sp, caching=True)
     deep_stage(run, prop, wd, 450 if tier == "quick" else 800)
     if prop == "C06":
         from . import lazy_exec
